@@ -276,6 +276,13 @@ class Interpreter(BaseInterpreter[TContext, TEvent]):
             # Ensure the event loop task is cancelled if it was created.
             if self._event_loop_task and not self._event_loop_task.done():
                 self._event_loop_task.cancel()
+            # 🧹 Release whatever the partial entry already armed. The status
+            #    is now "stopped", so a later `stop()` returns early and
+            #    would never cancel these timers, services and actors.
+            for actor in list(self._actors.values()):
+                await actor.stop()
+            self._actors.clear()
+            await self.task_manager.cancel_all()
             raise  # Re-raise the original exception to the caller.
 
         return self
